@@ -162,6 +162,16 @@ def shard(ctx, k, payload):
                 continue
             pats = {'wage': WAGES, 'deduct': DEDUCTIBLE, 'withhold': WITHHOLDING}[kind]
             cands = sorted(k_ for k_ in inputs if matches(k_, pats))
+            if kind == 'withhold':
+                # the withholding box of every payer statement in the file, also when the demand-driven build never
+                # asked for it (a box that no line reads would otherwise never be a candidate)
+                for form_, box_ in (('w-2', 'box_2'), ('1099-int', 'box_4'), ('1099-div', 'box_4'), ('1099-r', 'box_4'), ('1099-g', 'box_4')):
+                    try:
+                        n_ = int(inputs.get(f'1040.number_{form_}', '0').strip() or 0)
+                    except ValueError:
+                        n_ = 0
+                    cands += [f'{form_}:{c_}.{box_}' for c_ in range(n_) if f'{form_}:{c_}.{box_}' not in inputs]
+                cands = sorted(set(cands))
             if not cands:
                 ctx.count(kind + ':no_candidate')
                 continue
@@ -203,7 +213,7 @@ def shard(ctx, k, payload):
             else:
                 inputs_pair, bq_pair = inputs, bq
             try:
-                old = float(inputs_pair[key].strip() or 0)
+                old = float(inputs_pair.get(key, '0').strip() or 0)
             except ValueError:
                 continue
             inp2 = dict(inputs_pair)
@@ -337,7 +347,7 @@ def replay(ctx, case):
         return
     key, delta = case['key'], case['delta']
     inp2 = dict(sc['inputs'])
-    inp2[key] = f'{float(sc["inputs"][key].strip() or 0) + delta:.2f}'
+    inp2[key] = f'{float(sc["inputs"].get(key, "0").strip() or 0) + delta:.2f}'
     r2 = solve_vals(sc, inp2)
     if r2 is None:
         return
